@@ -292,8 +292,9 @@ PROPERTIES = {
             "the bit-copy part of _assign (Span.apply_zip, bin() round trips) is opaque to the prover and assumed not to raise: acceptance is proved, the stored value is checked by bounded native enumeration only",
             "format_cast lemma assumes the operand text has the VHDL type of the value's CoHDL type (format_value / format_vhdl_cast establish it; format_vhdl_cast is under contract as well)",
             "a backend AssertionError for a pair the front end accepts counts as a compile-time rejection (observed: literal Signed assigned to a .signed view of an Unsigned object)",
-            "not covered: the qualified-object assignment replacements of _type_qualifier.py, _Redirect/_try_join merges and port connection (all funnel into the _assign contracts above, but that funnelling is not under contract yet)",
+            "the setter replacements, _Redirect.__init__, _try_join (join type has the kind of every vector alternative) and the initialisation replacements are under contract; port connection (Entity.__init__ uses a plain `port <<= actual` check) is only covered by the C12 association contract",
         ],
+        "extra": ["contracts.c05_extra.setter_replacements"],
         "canaries": [
             {"name": "cast-resize-width", "contract": "cohdl._compiler.backend.vhdl._vhdl_repr:VhdlScope.format_cast", "case": "Unsigned.unsigned.whole<-Unsigned.tq", "file": "cohdl/_compiler/backend/vhdl/_vhdl_repr.py",
              "old": "                    else:\n                        assert target_type.width > value_type.width\n                        return f\"resize({value_str}, {target_type.width})\"\n                elif issubclass(value_type, Signed):\n                    if issubclass(target_type, Signed):\n                        if target_type.width != value_type.width:\n                            assert target_type.width > value_type.width\n                            value_str = f\"resize({value_str}, {target_type.width})\"\n                    else:\n                        assert target_type.width == value_type.width\n\n                    return f\"unsigned(std_logic_vector({value_str}))\"",
